@@ -7,7 +7,7 @@ from vf import adapter, linegram as lg, rops
 from vf.core import Violation, case_hash
 
 RULE = (
-    "table: every opcode of R-OPS (TEAL v1-v8) x immediate shapes (dig/cover/uncover/bury/popn/dupn n in 0..12 spelled decimal, hex and octal, "
+    "table: every opcode of R-OPS (TEAL v1-v8) x immediate shapes (dig/cover/uncover/bury/popn/dupn n in 0..12 - in the token blocks also dupn/popn excursions several hundred entries deep - spelled decimal, hex and octal, "
     "pushints/pushbytess of 1..6, match/switch with 1..5 labels, proto, frame ops) - tealer's (pop, push) must "
     "equal the AVM's; exhaustive. tokens: straight-line blocks of 1-40 instructions over the whole opcode set "
     "(branch/terminator only last) are executed on a stack of unique tokens by R-OPS (computing opcodes push "
@@ -190,6 +190,21 @@ def block_case(draw, exclude=()):
             v = draw(st.integers(1, 12))
             toks, vals = [lg.spell_int(v, draw(st.sampled_from([0, 0, 1, 2])))], [v]
         lines.append([nm, toks, vals])
+    if draw(st.sampled_from(range(6))) == 0:
+        # deep excursion: a few values pushed in the block, then several hundred copies on top of them (dupn with a
+        # large count, within the AVM's limit of 1000 entries), removed again - what follows consumes the values
+        # that were buried in between
+        pos = draw(st.integers(0, len(lines)))
+        macro = []
+        for _ in range(draw(st.integers(1, 3))):
+            toks, vals, _x = draw(lg.immediates("int"))
+            macro.append(["int", toks, vals])
+        counts = draw(st.lists(st.sampled_from([130, 200, 254, 255]), min_size=1, max_size=3))
+        for c_ in counts:
+            macro.append(["dupn", [lg.spell_int(c_, draw(st.sampled_from([0, 0, 1, 2])))], [c_]])
+        for c_ in counts:
+            macro.append(["popn", [lg.spell_int(c_, draw(st.sampled_from([0, 0, 1, 2])))], [c_]])
+        lines[pos:pos] = macro
     if draw(st.integers(0, 3)) == 0:
         nm = draw(st.sampled_from(["return", "err", "bnz", "bz", "switch", "match", "b", "callsub", "retsub"]))
         if nm in ("switch", "match"):
